@@ -351,17 +351,22 @@ def o_single_frame(blob):
 
 
 def oracle_session(maxsize, stream, events, is_network_error):
-    """`_oracle_session` + attribution: when the session ends in an Abort that stands right behind
-    an empty message ahead of the peer's CSM and nothing later in the stream accounts for that
-    Abort, the verdict names the empty message (key tcp-empty-not-ignored)."""
+    """`_oracle_session` + attribution of a session-ending Abort that stands right behind frames
+    which ask for no reaction at all (an empty message ahead of the peer's CSM; a CSM or Pong
+    without critical options).  When the stream has nothing (complete) behind them, the Abort is
+    theirs: keys tcp-empty-not-ignored / tcp-signalling-refused.  When a later frame is the one
+    the oracle stumbles over (it expected a dispatch or a Pong and found the Abort), which of the
+    frames made the endpoint abort cannot be read from the events: the later frame's verdict and
+    key stay, and the verdict says where the Abort stands."""
     notes = {}
     verdict, key = _oracle_session(maxsize, stream, events, is_network_error, notes)
-    if verdict and "empty" in notes:
-        return ("empty message in frame %d, ahead of the peer's CSM, not ignored (Abort, close); then: %s"
-                % (notes["empty"], verdict), "tcp-empty-not-ignored")
-    if verdict and "signalling" in notes:
-        return ("well-formed %s in frame %d without critical options answered by Abort and close; then: %s"
-                % (notes["signalling"][1], notes["signalling"][0], verdict), "tcp-signalling-refused")
+    if not verdict:
+        return verdict, key
+    for what, (k, text) in sorted(notes.items(), key=lambda kv: kv[1][0]):
+        if key.startswith("tcp-unexpected-event:W"):
+            return ("%s in frame %d answered by Abort and close, and nothing behind it in the stream asks for one (%s)"
+                    % (text, k, verdict), {"empty": "tcp-empty-not-ignored", "signalling": "tcp-signalling-refused"}[what])
+        return (verdict + " [the Abort stands right behind the %s in frame %d]" % (text, k), key)
     return verdict, key
 
 
@@ -449,7 +454,7 @@ def _oracle_session(maxsize, stream, events, is_network_error, notes):
                 if code in (225, 227) and looks_like_abort_close():
                     # a CSM / Pong whose options are all elective asks for no reaction: if the session
                     # ends in an Abort here and nothing later accounts for it, it is this frame's
-                    notes.setdefault("signalling", (k, {225: "CSM", 227: "Pong"}[code]))
+                    notes.setdefault("signalling", (k, "well-formed %s without critical options" % {225: "CSM", 227: "Pong"}[code]))
                 if code == 225:
                     csm = True
                 elif code == 226:
@@ -484,7 +489,7 @@ def _oracle_session(maxsize, stream, events, is_network_error, notes):
                 if not csm and looks_like_abort_close():
                     # the session ends in an Abort at this point: fine if a later frame accounts
                     # for it (a request without CSM, a broken frame, ...), else it is this frame's
-                    notes.setdefault("empty", k)
+                    notes.setdefault("empty", (k, "empty message ahead of the peer's CSM"))
             elif not csm:
                 if i < len(ev) and ev[i][0] in ("Q", "R"):
                     return ("message in frame %d dispatched before the peer's CSM" % k, "tcp-dispatch-before-csm")
